@@ -543,7 +543,9 @@ impl<'a> Interp<'a> {
             "drop" => {
                 let Some(l) = self.objs.get_mut(&o) else { self.skipped += 1; return; };
                 let Some(obj) = l.obj.as_ref() else { self.skipped += 1; return; };
-                // secrets: IV, last exported state, next keystream/output block (from a clone fed zeros)
+                // secrets: IV, last exported state, next keystream/output block (from a clone fed zeros), the block
+                // counter (when it has enough entropy to be recognisable), BelT's E(IV); each also byte-reversed
+                // (a big-endian counter word is kept numerically, i.e. reversed on this machine)
                 let mut secrets: Vec<Vec<u8>> = vec![l.iv.clone()];
                 if let Some((st, _)) = obj.export() {
                     secrets.push(st);
@@ -556,6 +558,17 @@ impl<'a> Interp<'a> {
                         secrets.push(io.out);
                     }
                 }
+                if let Some(bp) = obj.bpos() {
+                    secrets.push(bp.to_le_bytes().to_vec());
+                }
+                if l.kind.starts_with("belt") {
+                    let bs = self.facs[l.fac].bs();
+                    if let Ok(mut e) = self.facs[l.fac].make("cbc", "enc", &l.key, &vec![0u8; bs], "inner", None) {
+                        secrets.push(e.blocks(&l.iv, None, false).out);
+                    }
+                }
+                let rev: Vec<Vec<u8>> = secrets.iter().map(|x| x.iter().rev().cloned().collect()).collect();
+                secrets.extend(rev);
                 let obj = l.obj.take().unwrap();
                 let r = Self::guarded(|| obj.drop_image());
                 match r {
